@@ -281,3 +281,133 @@ func paramN(n int) func(ssa.Value) bool {
 		return ok && n < len(p.Parent().Params) && p.Parent().Params[n] == p
 	}
 }
+
+// ascendingLiteralElems: v is s[i] where i is a cursor that starts at 0 and
+// grows by one per iteration and s is a full slice of a local array whose
+// elements were stored at constant indices (a composite/variadic literal):
+// returns the stored elements in index order, else nil.
+func ascendingLiteralElems(v ssa.Value) []ssa.Value {
+	ld, ok := v.(*ssa.UnOp)
+	if !ok || ld.Op != token.MUL {
+		return nil
+	}
+	ia, ok := ld.X.(*ssa.IndexAddr)
+	if !ok {
+		return nil
+	}
+	isConst := func(x ssa.Value, want string) bool {
+		k, ok := x.(*ssa.Const)
+		return ok && k.Value != nil && k.Value.ExactString() == want
+	}
+	// the cursor
+	asc := false
+	switch idx := ia.Index.(type) {
+	case *ssa.Phi: // for i := 0; …; i++
+		if len(idx.Edges) == 2 {
+			for k, e := range idx.Edges {
+				o := idx.Edges[1-k]
+				if b, ok := o.(*ssa.BinOp); ok && isConst(e, "0") && b.Op == token.ADD && b.X == ssa.Value(idx) && isConst(b.Y, "1") {
+					asc = true
+				}
+			}
+		}
+	case *ssa.BinOp: // range loop: i = φ(-1, i) + 1
+		if phi, ok := idx.X.(*ssa.Phi); ok && idx.Op == token.ADD && isConst(idx.Y, "1") && len(phi.Edges) == 2 {
+			for k, e := range phi.Edges {
+				if isConst(e, "-1") && phi.Edges[1-k] == ssa.Value(idx) {
+					asc = true
+				}
+			}
+		}
+	}
+	if !asc {
+		return nil
+	}
+	sl, ok := ia.X.(*ssa.Slice)
+	if !ok || sl.Low != nil || sl.High != nil {
+		return nil
+	}
+	al, ok := sl.X.(*ssa.Alloc)
+	if !ok {
+		return nil
+	}
+	arr, ok := al.Type().Underlying().(*types.Pointer).Elem().Underlying().(*types.Array)
+	if !ok {
+		return nil
+	}
+	out := make([]ssa.Value, arr.Len())
+	for _, r := range *al.Referrers() {
+		ea, ok := r.(*ssa.IndexAddr)
+		if !ok {
+			continue
+		}
+		k, ok := ea.Index.(*ssa.Const)
+		if !ok || k.Value == nil {
+			return nil
+		}
+		i := int(k.Int64())
+		for _, r2 := range *ea.Referrers() {
+			if st, ok := r2.(*ssa.Store); ok && st.Addr == ssa.Value(ea) && i >= 0 && i < len(out) {
+				if out[i] != nil {
+					return nil
+				}
+				out[i] = st.Val
+			}
+		}
+	}
+	for _, x := range out {
+		if x == nil {
+			return nil
+		}
+	}
+	return out
+}
+
+// constTripCount: the loop with header h is `for i := a; i < b; i++` (or <=,
+// or counting with != b) with constant a, b and no other exit condition in the
+// header: returns the number of iterations.
+func constTripCount(h *ssa.BasicBlock) (int, bool) {
+	if len(h.Instrs) == 0 {
+		return 0, false
+	}
+	iff, ok := h.Instrs[len(h.Instrs)-1].(*ssa.If)
+	if !ok {
+		return 0, false
+	}
+	bo, ok := iff.Cond.(*ssa.BinOp)
+	if !ok {
+		return 0, false
+	}
+	phi, ok := bo.X.(*ssa.Phi)
+	kb, okb := bo.Y.(*ssa.Const)
+	if !ok || !okb || phi.Block() != h || kb.Value == nil || len(phi.Edges) != 2 {
+		return 0, false
+	}
+	var start *ssa.Const
+	stepOK := false
+	for _, e := range phi.Edges {
+		if k, isK := e.(*ssa.Const); isK && k.Value != nil {
+			start = k
+		} else if b, isB := e.(*ssa.BinOp); isB && b.Op == token.ADD && b.X == ssa.Value(phi) {
+			if k1, isK := b.Y.(*ssa.Const); isK && k1.Value != nil && k1.Value.ExactString() == "1" {
+				stepOK = true
+			}
+		}
+	}
+	if start == nil || !stepOK {
+		return 0, false
+	}
+	// the loop body is the true successor
+	a, b := start.Int64(), kb.Int64()
+	switch bo.Op {
+	case token.LSS, token.NEQ:
+		if b >= a {
+			return int(b - a), true
+		}
+	case token.LEQ:
+		if b >= a {
+			return int(b-a) + 1, true
+		}
+	}
+	return 0, false
+}
